@@ -39,6 +39,40 @@ let () = iter_lines (fun line ->
   match words line with
   | ["MS"; a; b] -> print_endline (string_of_z (Gen_Leaves.pvMultShift (z_of_string a) (z_of_string b)))
   | ["SC"; a] -> print_endline (string_of_z (Gen_Leaves.pvGetStepCount (z_of_string a)))
+  | ["BIGM"; n; pos; mode] ->
+    (* same formula-defined array as harness.cpp BIGM; nothing is materialised: hash/item are computed per access *)
+    let n = int_of_string n and pos = int_of_string pos and mode = int_of_string mode in
+    let quad = mode >= 10 in let mode = mode mod 10 in
+    let m64 = Z.pred (Z.shift_left Z.one 64) in
+    let step = if quad then Z.div (Z.div m64 (Z.of_int n)) (Z.of_int n) else Z.div m64 (Z.of_int n) in
+    let idof i = i / 2 in
+    let hashof i = let id = idof i in let hid = id - (if id mod 3 = 1 then 1 else 0) in
+      if quad then Z.mul (Z.mul (Z.of_int (hid * 2)) (Z.of_int (hid * 2))) step else Z.mul (Z.of_int (hid * 2)) step in
+    let qh = if mode = 2 then Z.succ (hashof pos) else hashof pos in
+    let qid = if mode = 1 then (-1) else if mode = 2 then (-3) else idof pos in
+    log := []; nlog := 0;
+    let hash zi = let i = int_of_z zi in push (4 * (i + 2)); z_of_zarith (hashof i) in
+    let item zi = zi in
+    let ido a = if a = -2 then qid else idof a in
+    let eqf za zb = let a = int_of_z za and b = int_of_z zb in push (4 * (a + 2) + 1); push (4 * (b + 2) + 2); ido a = ido b in
+    let cnt = z_of_int n and qx = z_of_int (-2) and qhz = z_of_zarith qh in
+    let f = Instance.coq_Find cnt hash item eqf qhz qx in
+    let b = Instance.coq_GetBounds cnt hash item eqf qhz qx in
+    (match f, b with
+     | Ok (k, fd), Ok (bb, be) -> Printf.printf "%s %d %s %s | %s\n" (string_of_z k) (if fd then 1 else 0) (string_of_z bb) (string_of_z be) (trace_str ())
+     | _ -> print_endline "Stuck/Fuel")
+  | "GSEL" :: n :: ws ->
+    (* the GENERATED pvSelectionSort on an array of codes: final item codes | groupFunc calls pos:count *)
+    let n = int_of_string n in
+    let a = Array.of_list (Stdlib.List.map z_of_string ws) in
+    let items zi = let i = int_of_z zi in if i >= 0 && i < n then a.(i) else z_of_int 0 in
+    let zf _ = z_of_int 0 in
+    (match Gen_SelSort.pvSelectionSort zf items zf zf (z_of_int 0) (z_of_int 0) (z_of_int n) with
+     | Ok (((((_, _), items'), gpos), gcnt), gnum) ->
+       let body = Stdlib.String.concat " " (Stdlib.List.init n (fun i -> string_of_z (items' (z_of_int i)))) in
+       let g = Stdlib.String.concat " " (Stdlib.List.init (int_of_z gnum) (fun j -> string_of_z (gpos (z_of_int j)) ^ ":" ^ string_of_z (gcnt (z_of_int j)))) in
+       Printf.printf "%s | %s\n" body g
+     | Stuck -> print_endline "Stuck" | Fuel -> print_endline "Fuel" | Exn -> print_endline "Exn")
   | ["SCODE"; w; x] -> print_endline (string_of_z (CodeGetter.code_of_signed (z_of_string w) (z_of_string x)))
   | ["UCODE"; w; x] -> print_endline (string_of_z (CodeGetter.code_of_unsigned (z_of_string w) (z_of_string x)))
   | ["CMP"; a; b] -> print_endline (string_of_z (Gen_Leaves.pvCompare (z_of_string a) (z_of_string b)))
